@@ -85,7 +85,7 @@ pub struct LargeCase {
 
 pub fn large_case(max_size: usize) -> impl Strategy<Value = LargeCase> {
     // log-uniform size: 2^(1 + x * log2(max/2))
-    (0u8..6, 0u16..=1000, any::<u8>()).prop_map(move |(shape, x, extra)| {
+    (0u8..7, 0u16..=1000, any::<u8>()).prop_map(move |(shape, x, extra)| {
         let lg = (max_size as f64 / 2.0).log2();
         let size = (2.0 * (2f64).powf(lg * x as f64 / 1000.0)).round() as usize;
         LargeCase {
@@ -195,14 +195,32 @@ pub fn large_graph(c: &LargeCase) -> (Graph, Vec<usize>, &'static str) {
     }
 }
 
+/// Shape 6: a short chain whose targets declare a command that prints size*100 bytes (up to
+/// 200 KB, i.e. several pipe buffers).
+fn cmd_heavy_graph() -> Graph {
+    let b = |deps: Vec<usize>| GT { proj: 0, kind: Kind::Build, deps, outdeps: vec![] };
+    Graph { root_named: false, nproj: 1, targets: vec![b(vec![]), b(vec![0]), b(vec![1])] }
+}
+
 pub fn eval_large(c: &LargeCase) -> CaseResult {
-    let (g, roots, shape) = large_graph(c);
+    let cmd_heavy = c.shape == 6;
+    let (g, roots, shape) = if cmd_heavy { (cmd_heavy_graph(), vec![2], "cmd-heavy") } else { large_graph(c) };
     let sb = Sandbox::new("c04");
     let dir = write_graph_project(&sb, &g, &|_| String::new());
+    if cmd_heavy {
+        // add the command input to every target
+        let path = dir.join("zinoma.yml");
+        let mut doc: Value = serde_json::from_str(&std::fs::read_to_string(&path).unwrap()).unwrap();
+        let cmd = format!("head -c {} /dev/zero | tr '\\000' x", c.size * 100);
+        for (_, t) in doc["targets"].as_object_mut().unwrap().iter_mut() {
+            t["input"] = json!([{"cmd_stdout": cmd}]);
+        }
+        std::fs::write(&path, serde_json::to_string_pretty(&doc).unwrap()).unwrap();
+    }
     let args: Vec<String> = roots.iter().map(|&r| cli_name(&g, r, false)).collect();
     let closure = g.closure(&roots);
     let budget = Duration::from_secs(60 + (closure.len() as u64) / 10);
-    let out = run_zinoma(&sb, &dir, &args, &[], budget, true);
+    let out = spawn_zinoma(&sb, &dir, &args, &[]).wait_ext(budget, true, true);
     let trace = sb.trace();
     let max_fan = (0..g.n())
         .map(|i| g.edges(i).len())
@@ -218,7 +236,7 @@ pub fn eval_large(c: &LargeCase) -> CaseResult {
             dep_count.values().copied().max().unwrap_or(0)
         });
     let depth = if shape == "chain" { g.n() } else { 0 };
-    let nontrivial = max_fan >= 33 || depth >= 50 || roots.len() >= 33;
+    let nontrivial = max_fan >= 33 || depth >= 50 || roots.len() >= 33 || (cmd_heavy && c.size * 100 > 65_536);
     let sample = json!({"shape": shape, "size": c.size, "targets": g.n(), "requested": roots.len(), "max_fan": max_fan});
     let mut r = CaseResult {
         nontrivial,
